@@ -9,8 +9,17 @@ tu_text = '#include "%s/sdk/src/trace/batch_span_processor.cc"\n' % R.core.REPO
 TU_LOGS = ("tu_batch_logs", '#include "%s/sdk/src/logs/batch_log_record_processor.cc"\n' % R.core.REPO)
 spec_headers = ("xc_trace_boundary.h",)
 pre_c = r"""
-static void xc_havoc_ghosts(void) { }
+unsigned long g_exporter_shutdown_n; int g_joinable, g_exporter_shutdown_ret; long g_now;
+static void xc_havoc_ghosts(void) { unsigned long a; int j, r; long t; g_exporter_shutdown_n = a; g_joinable = j; g_exporter_shutdown_ret = r; g_now = t; }
 #define QSIZE(s) ((s)->buffer_.head_ - (s)->buffer_.tail_)
+#define XC_EXCHANGE(lv, v) ({ __typeof__(lv) xc_old = (lv); (lv) = (v); xc_old; })
+#define XC_FETCH_ADD(lv, v) ({ __typeof__(lv) xc_old = (lv); (lv) = xc_old + (v); xc_old; })
+static int xc_thread_joinable(void) { return g_joinable; }
+static void xc_thread_join(void) { }      /* the worker runs to its end: it is assumed not to issue flush tickets (see assumptions) */
+static void xc_cv_notify(void) { }
+static long xc_now(void) { return g_now; }
+static void xc_GetWaitAdjustedTime(long *timeout, long *start_time) { long a, b; *timeout = a; *start_time = b; }
+static bool xc_exporter_Shutdown(long timeout) { g_exporter_shutdown_n++; return g_exporter_shutdown_ret != 0; }
 """
 post_struct_c = ""
 
@@ -18,6 +27,14 @@ post_struct_c = ""
 def configure(cfg):
     common.sdk_trace_boundary(cfg)
     common.batch_boundary(cfg)
+    common.chrono_boundary(cfg)
+    for cls in ("BatchSpanProcessor", "BatchLogRecordProcessor"):
+        cfg.ext_q[cls + "::GetWaitAdjustedTime"] = lambda em, node, recv, args: "xc_GetWaitAdjustedTime(%s, %s)" % (em.addr_of(args[0]), em.addr_of(args[1]))
+    for exp in ("SpanExporter", "LogRecordExporter"):
+        cfg.ext_q[exp + "::Shutdown"] = lambda em, node, recv, args: "xc_exporter_Shutdown(%s)" % em.expr(args[0])
+    cfg.ext["now"] = lambda em, node, recv, args: "xc_now()"
+    for k in ("std::unique_ptr::operator==", "std::unique_ptr::operator!="):
+        cfg.ext_methods[k] = (lambda o: (lambda em, recv, args, n: "(%s.id %s 0)" % (recv, o)))(k[-2:])
 
 
 def slice_contract(extra=""):
@@ -34,8 +51,20 @@ def slice_contract(extra=""):
         "__CPROVER_ensures(*num_records_to_export <= QSIZE(self))\n"}
 
 
+def shutdown_contract(T):
+    # the batch bound relies on "no flush ticket": Shutdown must not issue one (only ForceFlush does). Frame: besides the shutdown flags nothing of
+    # the synchronisation data is written; the exporter is shut down at most once, and only by the first Shutdown
+    return {"pre":
+        "__CPROVER_requires(__CPROVER_is_fresh(self, sizeof(%s)) && __CPROVER_is_fresh(self->synchronization_data_, sizeof(*self->synchronization_data_)))\n" % T +
+        "__CPROVER_assigns(self->synchronization_data_->is_shutdown, self->synchronization_data_->is_force_wakeup_background_worker, g_exporter_shutdown_n)\n"
+        "__CPROVER_ensures(self->synchronization_data_->force_flush_pending_sequence == __CPROVER_old(self->synchronization_data_->force_flush_pending_sequence))\n"
+        "__CPROVER_ensures(self->synchronization_data_->is_shutdown)\n"
+        "__CPROVER_ensures(g_exporter_shutdown_n == __CPROVER_old(g_exporter_shutdown_n) + ((!__CPROVER_old(self->synchronization_data_->is_shutdown) && self->exporter_.id != 0) ? 1 : 0))\n"}
+
+
 NO_FLUSH = "__CPROVER_requires(self->synchronization_data_->force_flush_pending_sequence == 0)\n"
-contracts = {"Export_batch_size": slice_contract(), "Export_batch_size_logs": slice_contract()}
+contracts = {"Export_batch_size": slice_contract(), "Export_batch_size_logs": slice_contract(),
+             "BatchSpanProcessor_Shutdown": shutdown_contract("BatchSpanProcessor"), "BatchLogRecordProcessor_Shutdown": shutdown_contract("BatchLogRecordProcessor")}
 
 SPAN = {"func": ("BatchSpanProcessor::Export", 0), "from": "notify_force_flush", "to": "#2", "cname": "Export_batch_size"}
 LOGS = {"func": ("BatchLogRecordProcessor::Export", 0), "from": "notify_force_flush", "to": "#2", "cname": "Export_batch_size_logs"}
@@ -47,6 +76,12 @@ proofs = [
     Proof("LogExport_batch_size_no_flush_pending", [LOGS], enforce="Export_batch_size_logs", contracts={"Export_batch_size_logs": slice_contract(NO_FLUSH)},
           desc="restricted to histories without a ForceFlush ticket"),
 ]
+proofs += [
+    Proof("SpanShutdown_no_ticket", [("BatchSpanProcessor::Shutdown", 1)], enforce="BatchSpanProcessor_Shutdown",
+          desc="Shutdown issues no flush ticket (frame), shuts the exporter down at most once"),
+    Proof("LogShutdown_no_ticket", [("BatchLogRecordProcessor::Shutdown", 1)], enforce="BatchLogRecordProcessor_Shutdown",
+          desc="Shutdown issues no flush ticket (frame), shuts the exporter down at most once"),
+]
 for _p in proofs:
     if _p.name.startswith("Log"):
         _p.tu = TU_LOGS
@@ -57,6 +92,8 @@ assumptions = (
     "Consume(n)/ForEach hand over exactly n records, that batches are non-empty (the n == 0 test right after the slice) and that Export "
     "calls never overlap are NOT covered",
     "queue size = head - tail read once, sequentially",
+    "Shutdown is checked as one sequential call: joining the worker is a no-op of the model, i.e. the worker thread (DoBackgroundWork, DrainQueue, "
+    "Export, NotifyCompletion) is ASSUMED not to write force_flush_pending_sequence; only the Export slice's own frame is proved",
 )
 not_covered = ("'Export is never invoked while a previous Export is still running' (threads)", "CircularBuffer::Consume / CircularBufferRange::ForEach (C11, not built)",
                "the simple processor and the periodic metric reader")
@@ -79,6 +116,12 @@ def refute_native(mod, proof, violations, ix, workdir, seed):
     records, ForceFlush ticket) is replayed as a history on the real processor when it is small enough to run, followed by a short list
     of scaled histories with the same shape (ticket issued or not; queued <, ==, > batch bound)."""
     which = "logs" if proof.name.startswith("Log") else "span"
+    if "Shutdown" in proof.name:
+        # a ticket issued by Shutdown shows as an oversized batch when a backlog is drained at shutdown, in a history without ForceFlush
+        r = R.native_check("c03_native", ["c03_native.cc"], ["backlog_shutdown", which, 256, 5, 21], repo_sources=DRIVER_SRCS)
+        r["input"] = {"history": "%s processor, max_queue_size=256 max_export_batch_size=5: 5 records, exporter stuck in its first Export, 21 more records, Shutdown, exporter released (no ForceFlush)" % which,
+                      "found_by": "scripted native history (refute mode)"}
+        return r if r["reproduced"] else None
     vals = R.leaf_trace(workdir, proof.name, violations[0]["obligation"]) or {}
     q, b = _suffix(vals, ".max_queue_size_"), _suffix(vals, ".max_export_batch_size_")
     h, t = _suffix(vals, ".buffer_.head_"), _suffix(vals, ".buffer_.tail_")
